@@ -14,7 +14,7 @@ from strengths.units import UnitValue, UnitArray, Units, UnitsSystem  # noqa: E4
 
 TOL = 1e-12
 VALS = [3.7, -0.125]
-FORMS = ("UnitsSystem", "dict", "Units", "UnitValue", "str")
+FORMS = ("UnitsSystem", "dict", "partial-dict", "Units", "UnitValue", "str")
 
 
 def _target(form, dst, dim):
@@ -22,6 +22,9 @@ def _target(form, dst, dim):
         return uq.mk_sys(dst)
     if form == "dict":
         return uq.sysdict(dst)
+    if form == "partial-dict":
+        # components equal to the documented defaults (µm, s, molecule) are omitted
+        return {k: v for k, v, d in zip(("space", "time", "quantity"), dst, si.DEFAULT) if v != d}
     if form == "Units":
         return uq.mk_units(dst, dim)
     if form == "UnitValue":
@@ -81,6 +84,11 @@ def check_case(case):
             src, dst, dim = tuple(case["src"]), tuple(case["dst"]), tuple(case["dim"])
             q = _mk(case["kind"], src, dim)
             before = (_values(q), uq.sys_of(q.units), uq.dim_of(q.units))
+            if case["form"] == "partial-dict":
+                # something else in the process has just used a system that is non-default in every component: the omitted
+                # keys of the partial dictionary must still mean the documented defaults
+                q.convert(uq.sysdict(si.MIXED[1]))
+                UnitValue(1.0, si.units_string(si.MIXED[2], (1, 1, 1)))
             got = q.convert(_target(case["form"], dst, dim))
             _check_result(sub + ":" + case["form"] + ":" + case["kind"], q, got, dst, dim, out, case,
                           exact_identity=(src == dst))
@@ -116,6 +124,31 @@ def check_case(case):
                 tgt = si.units_string(("m", "s", "mol"), dim)
                 got = q.convert(tgt)
                 _check_result("family:convert", q, got, ("m", "s", "mol"), dim, out, case)
+        elif sub == "history":
+            src, dst, dst2, dim = tuple(case["src"]), tuple(case["dst"]), tuple(case["dst2"]), tuple(case["dim"])
+            q = uq.mk_ua([3.7, -0.125, 41.0], src, dim)
+            first = q.convert(uq.mk_sys(dst))
+            _check_result("history:first", q, first, dst, dim, out, case)
+            w = case["write"]
+            if w == "set_at":
+                q.set_at(1, uq.mk_uv(7.5, src, dim))
+            elif w == "value[i]=":
+                q.value[1] = 7.5
+            elif w == "value=":
+                q.value = [3.7, 7.5, 41.0]
+            elif w == "set_value":
+                q.set_value([3.7, 7.5, 41.0])
+            cur = uq.mk_ua([float(v) for v in q.value], uq.sys_of(q.units), uq.dim_of(q.units))   # fresh object, current content
+            if w != "none" and [float(v) for v in q.value] != [3.7, 7.5, 41.0]:
+                out.append(("C06:history:%s:write-not-applied" % w, "array holds %r after the write" % ([float(v) for v in q.value],)))
+            for tgt, tag in ((dst, "same-target-again"), (dst2, "other-target")):
+                got = q.convert(uq.mk_sys(tgt))
+                before = len(out)
+                _check_result("history:%s:%s" % (w, tag), cur, got, tgt, dim, out, case)
+                if len(out) == before:
+                    ref = cur.convert(uq.mk_sys(tgt))
+                    if [float(v) for v in ref.value] != [float(v) for v in got.value]:
+                        out.append(("C06:history:%s:%s:differs-from-fresh-object" % (w, tag), "%r vs %r" % (list(got.value), list(ref.value))))
         elif sub == "famprod":
             a = UnitValue(VALS[0], case["text"])
             b = UnitValue(VALS[0], case["equals"])
@@ -221,8 +254,22 @@ def _spaces(tier):
                     for form in FORMS:
                         for kind in ("scalar", "array"):
                             yield {"sub": "forms", "src": a, "dst": b, "dim": dim, "kind": kind, "form": form}
-    sp.append(("forms: 36x36 systems x 4 dimensions x 5 target forms x {scalar,array}", gen_forms,
-               36 * 36 * len(dims_f) * 5 * 2))
+    sp.append(("forms: 36x36 systems x 4 dimensions x 6 target forms (incl. partial units-system dictionaries) x {scalar,array}",
+               gen_forms, 36 * 36 * len(dims_f) * len(FORMS) * 2))
+
+    H6 = [si.DEFAULT, si.MIXED[0], si.MIXED[3], ("km", "h", "kmol"), ("nm", "µs", "pmol"), ("cm", "min", "mmol")]
+    WRITES = ("set_at", "value[i]=", "value=", "set_value", "none")
+
+    def gen_hist():
+        for a in H6:
+            for b in H6:
+                for c in H6:
+                    for dim in ((1, 0, 0), (2, -1, 1)):
+                        for w in WRITES:
+                            yield {"sub": "history", "src": a, "dst": b, "dst2": c, "dim": dim, "write": w}
+    sp.append(("history: one array object converted to X, modified in place (set_at / element write / value setter / set_value / "
+               "nothing), converted to X again and to Y: 6^3 system triples x 2 dimensions x 5 kinds of write", gen_hist,
+               6 ** 3 * 2 * len(WRITES)))
 
     c1 = si.cube(-1, 1)
 
@@ -264,7 +311,7 @@ def _work(job):
     for case in itertools.islice(gen(), lo, hi):
         res = check_case(case)
         acc.add(states=1, transitions=1, traces=1, evaluations=1)
-        nt = case.get("src") != case.get("dst") or case["sub"] in ("compose", "family", "mismatch", "famprod")
+        nt = case.get("src") != case.get("dst") or case["sub"] in ("compose", "family", "mismatch", "famprod", "history")
         if nt:
             seen_nt += 1
         for key, what in res:
